@@ -133,7 +133,7 @@ impl SrcB {
 }
 
 const DIRS: [&str; 5] = ["", "sub", "sub/deep", "lib", "sub/other"];
-const TEXTS: [&str; 13] = [
+const TEXTS: [&str; 16] = [
     "hello",
     "",
     "  indented line",
@@ -147,6 +147,10 @@ const TEXTS: [&str; 13] = [
     "-- end --",
     "a = b + c;",
     "replacement \u{fffd} character",
+    // a directive name followed by a blank that is not a space: ordinary text
+    "TXTPP#run\u{3000}x",
+    "-TXTPP#include\u{a0}plain1.txt",
+    "// TXTPP#tag\u{2003}T",
 ];
 const PREFIXES: [&str; 6] = ["-", "// ", "# ", "--", "<!-- ", "//"];
 const WSS: [&str; 5] = ["", "", "  ", "\t", "    "];
@@ -154,6 +158,9 @@ const WSS: [&str; 5] = ["", "", "  ", "\t", "    "];
 pub fn source_name(rng: &mut Rng, i: usize, dotted: bool) -> String {
     let stem = if dotted && rng.chance(1, 5) {
         format!("f{i}.v{}", rng.below(3))
+    } else if rng.chance(1, 12) {
+        // a blank in the name (commands quote the names they mention)
+        format!("f{i} b")
     } else {
         format!("f{i}")
     };
@@ -230,7 +237,7 @@ fn marker_cmd(id: &str) -> String {
 }
 
 fn probe_cmd(x: &str, id: &str) -> String {
-    format!("{{ cat {x} 2>/dev/null || printf '<absent>'; }} | cksum >> \"${{VLOG:?}}/p.{id}\"")
+    format!("{{ cat '{x}' 2>/dev/null || printf '<absent>'; }} | cksum >> \"${{VLOG:?}}/p.{id}\"")
 }
 
 /// Build a project around the given edge set. Every source gets text, directives and its edges
@@ -310,6 +317,7 @@ pub fn gen_graph_project(rng: &mut Rng, o: &GraphOpts, n: usize, edges: &BTreeSe
     let big_file = if o.big && rng.chance(1, 6) { Some(rng.below(n)) } else { None };
     let huge = rng.chance(1, 4);
     let mut temp_ctr = 0;
+    let mut dep_lines: Vec<(usize, String, usize)> = vec![];
     for i in 0..n {
         let dir = parent_rel(&paths[i]).to_string();
         let mut b = SrcB::new(
@@ -320,15 +328,28 @@ pub fn gen_graph_project(rng: &mut Rng, o: &GraphOpts, n: usize, edges: &BTreeSe
         let mut deps: Vec<usize> = edges.iter().filter(|(a, _)| *a == i).map(|(_, b)| *b).collect();
         rng.shuffle(&mut deps);
         // duplicated dependency lines now and then
-        if !deps.is_empty() && rng.chance(1, 6) {
+        if !deps.is_empty() && rng.chance(1, 5) {
+            // anywhere in the list: a repeated dependency in front of one that is still new
             let d = *rng.pick(&deps);
-            deps.push(d);
+            let at = rng.below(deps.len() + 1);
+            deps.insert(at, d);
+            if rng.chance(1, 3) {
+                let at = rng.below(deps.len() + 1);
+                deps.insert(at, d);
+            }
         }
         b.push(format!("file {i} begins"));
         // dependency-free part
         let pre = rng.below(4);
         for _ in 0..pre {
             gen_free_element(rng, o, &mut b, &dir, i, &plains, &mut temp_ctr, deps.is_empty(), &outs[i], &outs);
+        }
+        if !deps.is_empty() && rng.chance(1, 5) {
+            // a command above the dependency line that reads the dependency's output: the first
+            // pass may see anything, the text that counts is what it prints in the final pass
+            let x = rel_path(&dir, &outs[deps[0]]);
+            b.push(format!("+TXTPP#run cat '{x}' 2>/dev/null || true"));
+            b.push("above the dependency".into());
         }
         for (k, dj) in deps.iter().enumerate() {
             let x = rel_path(&dir, &outs[*dj]);
@@ -347,15 +368,16 @@ pub fn gen_graph_project(rng: &mut Rng, o: &GraphOpts, n: usize, edges: &BTreeSe
             let ws = if kw == "include" { *rng.pick(&WSS) } else { "" };
             let pf = if rng.chance(1, 3) { *rng.pick(&PREFIXES) } else { "" };
             b.push(format!("{ws}{pf}TXTPP#{kw} {x}"));
+            dep_lines.push((i, format!("{ws}{pf}TXTPP#{kw} {x}"), *dj));
             if o.probes && rng.chance(1, 2) {
                 b.push(format!("-TXTPP#run {}", probe_cmd(&x, &format!("{i}.{dj}.{k}"))));
             }
             if rng.chance(1, 3) {
                 // the README idiom: a command that reads the dependency output
                 if o.mark_all {
-                    b.push(format!("-TXTPP#run cat {x}; {}", marker_cmd(&format!("c{i}.{k}"))));
+                    b.push(format!("-TXTPP#run cat '{x}'; {}", marker_cmd(&format!("c{i}.{k}"))));
                 } else {
-                    b.push(format!("-TXTPP#run cat {x}"));
+                    b.push(format!("-TXTPP#run cat '{x}'"));
                 }
             }
             if o.markers && rng.chance(1, 3) {
@@ -376,6 +398,37 @@ pub fn gen_graph_project(rng: &mut Rng, o: &GraphOpts, n: usize, edges: &BTreeSe
         }
         b.push(format!("file {i} ends"));
         p.add_file(&paths[i], B(b.render(rng).into_bytes()));
+    }
+    if o.temps {
+        // a depender may consume a by-product of its dependency: below the dependency line it
+        // includes a temp file that the dependency writes
+        let a = crate::spec::analyze(&p);
+        let mut done: BTreeSet<(usize, usize)> = BTreeSet::new();
+        for (i, line, dj) in &dep_lines {
+            let (si, sj) = match (a.by_path.get(&paths[*i]), a.by_path.get(&paths[*dj])) {
+                (Some(x), Some(y)) => (*x, *y),
+                _ => continue,
+            };
+            if si == sj || a.sources[sj].temps.is_empty() || !rng.chance(1, 3) || !done.insert((*i, *dj)) {
+                continue;
+            }
+            let t = rng.pick(&a.sources[sj].temps).clone();
+            let text = match p.file(&paths[*i]) {
+                Some(d) => d.lossy(),
+                None => continue,
+            };
+            if let Some(pos) = text.find(line.as_str()) {
+                // end of that line
+                let after = pos + line.len();
+                if let Some(nl) = text[after..].find('\n') {
+                    let at = after + nl + 1;
+                    let eol = crate::spec::line_ending(&text);
+                    let ins = format!("TXTPP#include {}{eol}", rel_path(parent_rel(&paths[*i]), &t));
+                    let new = format!("{}{}{}", &text[..at], ins, &text[at..]);
+                    p.set_file(&paths[*i], B(new.into_bytes()));
+                }
+            }
+        }
     }
     if o.sized && rng.chance(1, 6) {
         // buffer-size boundaries of readers and writers (8 KiB) and the empty output
@@ -492,10 +545,18 @@ fn gen_free_element(
                         _ => f,
                     };
                     join_rel(parent_rel(own_out), &format!("{stem}.tmp")).unwrap_or_else(|| format!("{stem}.tmp"))
-                } else if tdir.is_empty() {
-                    format!("t{i}_{temp_ctr}.tmp")
                 } else {
-                    format!("{tdir}/t{i}_{temp_ctr}.tmp")
+                    // now and then a backslash in the file name (an ordinary character here)
+                    let name = if rng.chance(1, 10) {
+                        format!("t{i}_{temp_ctr}\\part.tmp")
+                    } else {
+                        format!("t{i}_{temp_ctr}.tmp")
+                    };
+                    if tdir.is_empty() {
+                        name
+                    } else {
+                        format!("{tdir}/{name}")
+                    }
                 };
                 let mut g = vec![format!("{ws}{pf}TXTPP#temp {}", rel_path(dir, &tpath))];
                 let body_lines = if o.big && rng.chance(1, 10) { 700 } else { rng.below(3) };
@@ -509,7 +570,7 @@ fn gen_free_element(
                 b.group(g);
                 if rng.chance(1, 2) {
                     // the README pattern: a command that consumes the temp file just written
-                    let cmd = format!("cat {}", rel_path(dir, &tpath));
+                    let cmd = format!("cat '{}'", rel_path(dir, &tpath));
                     if o.mark_all {
                         let id = format!("t{i}.{}", b.lines.len());
                         b.push(format!("+TXTPP#run {cmd}; {}", marker_cmd(&id)));
